@@ -300,4 +300,7 @@ def plan(tier, seed, rng):
             for p, c in ch: used[p.pid] = p
             prelude = PRELUDE_HEAD + "".join(p.render() for p in used.values())
             units.append(Unit("C02", cfg, [c for _, c in ch], ["props/c02.h"], max_success=40 if tier == "quick" else 60, prelude=prelude))
+    if tier == "thorough":
+        from vf.core import thin_units
+        units = thin_units(units, seed, 0.4, 0.15)
     return units
